@@ -76,6 +76,10 @@ func main() {
 			boundsSurvey(ctx)
 			return
 		}
+		if *flagDump == "@siblings" {
+			siblingSurvey(ctx)
+			return
+		}
 		for _, fn := range ctx.allFuncs {
 			if fnName(fn) == *flagDump {
 				fn.WriteTo(os.Stdout)
